@@ -299,6 +299,53 @@ func runC18(c *Ctx) {
 		}
 	}
 	c.S.Floor("R3", "narrowing conversions (≤ 16 bits) in the eventlog stream encoders", 1, nStreamNarrow)
+	// and for the constructors of ovmf/abi (Create*): a length field computed as constant + variable needs a check of
+	// the variable whose bound, plus the constant, still fits the field (finding F23: the bound was one alignment
+	// unit too large and the 16-bit HobLength wrapped to 0)
+	nCtorNarrow := 0
+	if ap := byPath[repoPath("ovmf/abi")]; ap != nil {
+		for _, file := range ap.Syntax {
+			if strings.HasSuffix(c.P.Fset.File(file.Pos()).Name(), "_test.go") {
+				continue
+			}
+			for _, d := range file.Decls {
+				fd, ok := d.(*ast.FuncDecl)
+				if !ok || fd.Body == nil || !strings.HasPrefix(fd.Name.Name, "Create") {
+					continue
+				}
+				info := ap.TypesInfo
+				ast.Inspect(fd.Body, func(n ast.Node) bool {
+					call, ok := n.(*ast.CallExpr)
+					if !ok || len(call.Args) != 1 {
+						return true
+					}
+					tv, ok := info.Types[call.Fun]
+					if !ok || !tv.IsType() {
+						return true
+					}
+					to, ok1 := tv.Type.Underlying().(*types.Basic)
+					at := info.Types[call.Args[0]]
+					if at.Type == nil {
+						return true
+					}
+					from, ok2 := at.Type.Underlying().(*types.Basic)
+					if !ok1 || !ok2 || to.Info()&types.IsInteger == 0 || from.Info()&types.IsInteger == 0 || at.Value != nil {
+						return true
+					}
+					tb, fb := basicBits(to), basicBits(from)
+					if tb >= fb || tb > 16 {
+						return true
+					}
+					nCtorNarrow++
+					src := exprString(call.Args[0])
+					okc := hasRangeCheck(info, fd, call, call.Args[0], tb) || hasAffineRangeCheck(info, fd, call, call.Args[0], tb)
+					c.S.Check(okc, "R3", "ovmf/abi."+fd.Name.Name+":narrowing "+src, c.pos(call.Pos()), fmt.Sprintf("%s is bounded so that it fits %d bits", src, tb), fmt.Sprintf("%s is narrowed to %d bits, and no preceding check bounds it below 2^%d: for the largest values the check lets through the field wraps instead of the value being refused", src, tb, tb))
+					return true
+				})
+			}
+		}
+	}
+	c.S.Floor("R3", "narrowing conversions (≤ 16 bits) in the constructors of ovmf/abi", 1, nCtorNarrow)
 
 	// ---------------- R4 stream codecs ----------------
 	nStream := 0
@@ -1276,4 +1323,60 @@ func variadicBinaryWriter(p *packages.Package, id *ast.Ident) (int, bool) {
 		return true
 	})
 	return sig.Params().Len() - 1, inLoop == 1 && total == 1
+}
+
+// hasAffineRangeCheck: src is k1 + k2 + … + x with constant k's and one variable term x, and an earlier
+// `if x > K { return … }` (or >=) bounds x so that the sum stays below 2^bits.
+func hasAffineRangeCheck(info *types.Info, fd *ast.FuncDecl, at ast.Node, src ast.Expr, bits int) bool {
+	var ksum int64
+	var vars []ast.Expr
+	var split func(e ast.Expr) bool
+	split = func(e ast.Expr) bool {
+		e = ast.Unparen(e)
+		if tv := info.Types[e]; tv.Value != nil {
+			k, ok := constant.Int64Val(constant.ToInt(tv.Value))
+			if !ok {
+				return false
+			}
+			ksum += k
+			return true
+		}
+		if be, ok := e.(*ast.BinaryExpr); ok && be.Op == token.ADD {
+			return split(be.X) && split(be.Y)
+		}
+		vars = append(vars, e)
+		return true
+	}
+	if !split(src) || len(vars) != 1 {
+		return false
+	}
+	want := exprString(vars[0])
+	limit := int64(1) << uint(bits)
+	found := false
+	ast.Inspect(fd.Body, func(n ast.Node) bool {
+		is, ok := n.(*ast.IfStmt)
+		if !ok || is.Pos() >= at.Pos() {
+			return true
+		}
+		be, ok := ast.Unparen(is.Cond).(*ast.BinaryExpr)
+		if !ok || (be.Op != token.GEQ && be.Op != token.GTR) || exprString(be.X) != want {
+			return true
+		}
+		tv := info.Types[be.Y]
+		if tv.Value == nil {
+			return true
+		}
+		k, _ := constant.Int64Val(constant.ToInt(tv.Value))
+		maxAllowed := k // x > k refused: x <= k
+		if be.Op == token.GEQ {
+			maxAllowed = k - 1
+		}
+		if ksum+maxAllowed < limit && len(is.Body.List) > 0 {
+			if _, ok := is.Body.List[len(is.Body.List)-1].(*ast.ReturnStmt); ok {
+				found = true
+			}
+		}
+		return true
+	})
+	return found
 }
